@@ -303,6 +303,9 @@ def edge_provenance(fn, sb, target, depth=0):
                         return False
                     pl = op_place(c)
                     if pl is not None and not pl[1]:
+                        # a plain move / copy hands an existing value on: the blocks that *give* the value its variant are the source's
+                        # definitions, which may lie before any later starting point (this block is not one of them)
+                        alld.discard(x[1])
                         if not walk(pl[0], d + 1):
                             return False
                         continue
